@@ -216,12 +216,211 @@ def v5(rep):
                           "%s and %s are dual implementations and differ at token %d: `%s` against `%s`" % (a, b, r[0], r[1], r[3]))
 
 
+def _lin(n, var):
+    from .c10_store_tables import _linear
+    return _linear(n, var)
+
+
+def v6(rep):
+    """B-tree node layout: a node with n keys has n+1 branches, key j sits between branch j and branch j+1.  When a rotation moves
+    the *last* key of a node (index n-1) out of it, the branch that goes with it is the last branch (index n); when it moves the
+    first key (index 0) the branch is branch 0.  On the receiving side a key appended at index m comes with branch m+1, a key put
+    at the front (index 0) with branch 0."""
+    f = common.extract("btree.c", trees=["btreeRotateUp", "btreeRotateDown"])
+    for name in ("btreeRotateUp", "btreeRotateDown"):
+        fn = f.func(name)
+        counts = {}       # node variable -> its nKeys variable
+        for x in walk(fn["body"]):
+            if x["k"] == "BinaryOperator" and x["op"] == "=":
+                l, r = strip(x["c"][0]), strip(x["c"][1])
+                if l is not None and r is not None and l["k"] == "DeclRefExpr" and r["k"] == "MemberExpr" and r["n"] == "nKeys":
+                    b = strip(r["c"][0])
+                    if b is not None and b["k"] == "DeclRefExpr":
+                        counts[b["n"]] = l["n"]
+
+        def part(e):
+            """(node var, index expr, field) for node->part[index].field"""
+            e = strip(e)
+            if e is None or e["k"] != "MemberExpr" or e["n"] not in ("key", "entry", "branch"):
+                return None
+            a = strip(e["c"][0])
+            if a is None or a["k"] != "ArraySubscriptExpr":
+                return None
+            arr, idx = strip(a["c"][0]), a["c"][1]
+            if arr is None or arr["k"] != "MemberExpr" or arr["n"] != "part":
+                return None
+            nd = strip(arr["c"][0])
+            if nd is None or nd["k"] != "DeclRefExpr":
+                return None
+            return nd["n"], idx, e["n"]
+        moves = []
+        par = common.parents(fn["body"])
+        for x in walk(fn["body"]):
+            if x["k"] != "BinaryOperator" or x["op"] != "=":
+                continue
+            d, s_ = part(x["c"][0]), part(x["c"][1])
+            if d is None or s_ is None or d[0] == s_[0]:
+                continue            # a slide within one node
+            in_loop = False
+            cur = x
+            while cur["id"] in par:
+                cur = par[cur["id"]]
+                if cur["k"] in ("ForStmt", "WhileStmt"):
+                    in_loop = True
+            if not in_loop:
+                moves.append((d, s_, x))
+        keys_out = [(d, s_, x) for d, s_, x in moves if s_[2] == "key" and s_[0] in counts and d[0] not in counts]
+        keys_in = [(d, s_, x) for d, s_, x in moves if d[2] == "key" and d[0] in counts and s_[0] not in counts]
+        br = [(d, s_, x) for d, s_, x in moves if d[2] == "branch" and s_[2] == "branch"]
+        if len(keys_out) != 1 or len(keys_in) != 1 or len(br) != 1:
+            raise AnalysisBroken("%s: expected one key moved up, one key moved down and one branch moved across (found %d, %d, %d)"
+                                 % (name, len(keys_out), len(keys_in), len(br)))
+        (_, ksrc, kx), (kdst, _, _), (bdst, bsrc, bx) = keys_out[0], keys_in[0], br[0]
+        where = "btree.c:%d (%s)" % (bx["l"], name)
+        if bsrc[0] != ksrc[0] or bdst[0] != kdst[0]:
+            rep.violation("V6", "btree-rotate:%s:branch-follows-key" % name, where,
+                          "the key leaves node '%s' for '%s' (through the parent) but the branch is moved from '%s' to '%s'"
+                          % (ksrc[0], kdst[0], bsrc[0], bdst[0]))
+            continue
+        for side, node, kidx, bidx in (("giving", ksrc[0], ksrc[1], bsrc[1]), ("receiving", kdst[0], kdst[1], bdst[1])):
+            nv = counts[node]
+            k, b = _lin(kidx, nv), _lin(bidx, nv)
+            key = "btree-rotate:%s:%s-side" % (name, side)
+            if k is None or b is None:
+                raise AnalysisBroken("%s: index on the %s side is not linear in %s" % (name, side, nv))
+            if side == "giving":
+                want = {(1, -1): (1, 0), (0, 0): (0, 0)}.get(k)       # last key -> last branch; first key -> first branch
+            else:
+                want = {(1, 0): (1, 1), (0, 0): (0, 0)}.get(k)        # appended key -> branch after it; front key -> front branch
+            if want is None:
+                raise AnalysisBroken("%s: the key index on the %s side (%s) is neither an end of the node" % (name, side, render(kidx)))
+            if b == want:
+                rep.ok("V6", key, sample={"key index": render(kidx), "branch index": render(bidx)})
+            else:
+                rep.violation("V6", key, where,
+                              "on the %s side node '%s' (with %s keys) %s key index `%s` but branch index `%s`: in a node with n keys "
+                              "and n+1 branches the branch that belongs to that key is `%s`; the subtree moved is the wrong one, so "
+                              "one subtree becomes reachable twice and another is lost (its keys vanish from lookup and iteration)"
+                              % (side, node, nv, "gives up" if side == "giving" else "receives", render(kidx), render(bidx),
+                                 ("%s" % nv if want == (1, 0) else "%s+1" % nv if want == (1, 1) else "0")))
+
+
+MERGE_LOOPS = ("dnfAndImplies", "dnfAndImpliesNegation", "dnfAndCancelNegation")
+
+
+def v7(rep):
+    """The normal form keeps each conjunct as a sorted literal vector and walks two of them in step (a merge loop).  In the branch
+    where the literal of the first conjunct sorts before the literal looked for, only the first index may move: advancing the
+    second too skips a literal that is never matched (and, in the cancelling variant, stores more literals than were allocated).
+    The three loops are siblings and are compared on exactly that point."""
+    f = common.extract("dnf.c", trees=list(MERGE_LOOPS))
+    n = 0
+    for name in MERGE_LOOPS:
+        fn = f.func(name)
+        ps = [p["n"] for p in fn["params"]]
+        if len(ps) != 2:
+            raise AnalysisBroken("%s: expected two conjunct parameters" % name)
+        loops = [x for x in walk(fn["body"]) if x["k"] == "ForStmt"]
+        lt = [i for lp in loops for i in walk(lp) if i["k"] == "IfStmt" and any(c.get("callee") == "dnfAtomLT" or c.get("mac") == "dnfAtomLT"
+                                                                                   for c in walk(i["c"][0]))]
+        if len(lt) != 1:
+            raise AnalysisBroken("%s: the `dnfAtomLT(first, second)` branch of the merge loop was not found" % name)
+        cond = lt[0]["c"][0]
+        order = [y["n"] for y in walk(cond) if y["k"] == "DeclRefExpr" and y.get("dk") != "fn" and not y["n"].startswith("dnf")]
+        # which index feeds which atom variable
+        src = {}
+        for d in walk(fn["body"]):
+            if d["k"] == "DeclStmt":
+                for v in d.get("decls", []):
+                    if v.get("init") is not None:
+                        idx = [y["n"] for y in walk(v["init"]) if y["k"] == "DeclRefExpr" and y["n"] not in ps]
+                        base = [y["n"] for y in walk(v["init"]) if y["k"] == "DeclRefExpr" and y["n"] in ps]
+                        if len(idx) == 1 and len(base) == 1:
+                            src[v["n"]] = (base[0], idx[0])
+        if len(order) != 2 or order[0] not in src or order[1] not in src:
+            raise AnalysisBroken("%s: operands of dnfAtomLT are not the two atom variables" % name)
+        first_idx, second_idx = src[order[0]][1], src[order[1]][1]
+        moved = set()
+        for y in walk(lt[0]["c"][1]):
+            if y["k"] == "CompoundAssignOperator" and y["op"] in ("+=",) or y["k"] == "UnaryOperator" and "++" in (y.get("op") or ""):
+                t = strip(y["c"][0])
+                if t is not None and t["k"] == "DeclRefExpr":
+                    moved.add(t["n"])
+        n += 1
+        key = "merge-loop:%s:less-than-advances-first-only" % name
+        if second_idx in moved:
+            rep.violation("V7", key, "dnf.c:%d (%s)" % (lt[0]["l"], name),
+                          "when the literal of '%s' sorts before the literal of '%s' looked for, the loop advances '%s' as well as '%s': "
+                          "the literal of '%s' at that position is never matched%s" %
+                          (src[order[0]][0], src[order[1]][0], second_idx, first_idx, src[order[1]][0],
+                           "; the copy loop then stores one literal more than the result was allocated for"
+                           if name == "dnfAndCancelNegation" else ""))
+        elif first_idx in moved:
+            rep.ok("V7", key)
+        else:
+            raise AnalysisBroken("%s: the less-than branch advances neither index" % name)
+    rep.floor("merge loops over conjuncts", n, 3)
+
+
+def v8(rep):
+    """(P and not q) or q == P or q holds for a literal q.  For a conjunct Q = q1 and q2 the literal-wise negation (not q1 and not
+    q2) is not the negation of Q, so cancelling it out of another disjunct is not an equivalence: (a and b) or (not a and not b)
+    would become TRUE.  The cancelling rewrite of dnfOrMerge must therefore be restricted to single-literal disjuncts, either at
+    the call or inside the test it relies on."""
+    f = common.extract("dnf.c", trees=["dnfOrMerge", "dnfAndImpliesNegation"])
+    fn = f.func("dnfOrMerge")
+    par = common.parents(fn["body"])
+    cs = calls(fn["body"], "dnfAndCancelNegation")
+    if len(cs) != 1:
+        raise AnalysisBroken("dnfOrMerge: expected one call of dnfAndCancelNegation")
+    other = render(strip(cs[0]["c"][2]))
+
+    def unit_test(n, who):
+        """does n contain `<who>->argc == 1` (or <= 1 / < 2)"""
+        for y in walk(n):
+            if y["k"] == "BinaryOperator" and y["op"] in ("==", "<=", "<"):
+                l, v = strip(y["c"][0]), const_value(y["c"][1])
+                if l is not None and l["k"] == "MemberExpr" and l["n"] == "argc" and (who is None or render(strip(l["c"][0])) == who):
+                    if (y["op"], v) in (("==", 1), ("<=", 1), ("<", 2)):
+                        return True
+        return False
+    guarded = False
+    cur = cs[0]
+    while cur["id"] in par:
+        p_ = par[cur["id"]]
+        if p_["k"] == "IfStmt" and any(y is cur for y in walk(p_["c"][1])) and unit_test(p_["c"][0], other):
+            guarded = True
+        cur = p_
+    tst = f.func("dnfAndImpliesNegation")
+    second = tst["params"][1]["n"]
+    for i in walk(tst["body"]):
+        if i["k"] == "IfStmt":
+            c = i["c"][0]
+            rets = [r for r in walk(i["c"][1]) if r["k"] == "ReturnStmt" and const_value(r["c"][0]) == 0]
+            neg = [y for y in walk(c) if y["k"] == "BinaryOperator" and y["op"] in ("!=", ">") and
+                   (strip(y["c"][0]) or {}).get("n") == "argc" and render(strip(strip(y["c"][0])["c"][0])) == second and
+                   const_value(y["c"][1]) == 1]
+            if rets and neg:
+                guarded = True
+    where = "dnf.c:%d (dnfOrMerge)" % cs[0]["l"]
+    if guarded:
+        rep.ok("V8", "or-merge:cancellation-unit-only")
+    else:
+        rep.violation("V8", "or-merge:cancellation-unit-only", where,
+                      "dnfOrMerge cancels the literal-wise negation of disjunct `%s` out of another disjunct whatever its length; that is "
+                      "an equivalence only for a single literal: (a and b) or (not a and not b), and a xor b, are normalised to TRUE, so "
+                      "an export conditional on such a formula is treated as unconditional" % other)
+
+
 def run(tier, only=None):
     rep = common.Report("C20", tier, EXPLANATION)
     v1(rep)
     v2(rep)
     v3(rep)
     v4(rep)
+    v6(rep)
+    v7(rep)
+    v8(rep)
     try:
         v5(rep)
     except AnalysisBroken as e:
